@@ -189,6 +189,30 @@ Theorem C17_offset_refuted :
 Proof. vm_compute. repeat split; discriminate. Qed.
 Print Assumptions C17_offset_refuted.
 
+(* (3f) The offset is an offset into the request and every slice that uses it is a slice of the request
+   itself: apart from the two early returns, detection fails exactly when the offset is not a
+   character boundary of the INPUT (no derived copy of the text is ever sliced with it). *)
+Theorem C17_offset_same_string :
+  forall (input : bytes) (off : nat),
+    detect input off = None <->
+    (containsb kw_select (map ascii_lower input) && negb (containsb kw_where (map ascii_lower input)) &&
+       negb (containsb kw_insert (map ascii_lower input)) = false /\
+     negb (Nat.eqb (countb 123 input) (countb 125 input)) = false /\
+     boundary input off = false).
+Proof. exact detect_panics_iff. Qed.
+Print Assumptions C17_offset_same_string.
+
+(* ... and it matters: a variant that hands the lower-cased copy of the request to check_missing_prefix
+   (to_lowercase changes byte lengths: U+212A KELVIN SIGN, 3 bytes, lowers to 'k') panics on
+   `INSERT DATA { <urn:a> <urn:b> "K" } .` (error slice: the final '.'), where the code at HEAD renders. *)
+Definition w_kelvin : bytes := [73; 78; 83; 69; 82; 84; 32; 68; 65; 84; 65; 32; 123; 32; 60; 117; 114; 110; 58; 97; 62; 32; 60; 117; 114; 110; 58; 98; 62; 32; 34; 226; 132; 170; 34; 32; 125; 32; 46].
+Theorem C17_lowercased_copy_refuted :
+  valid_utf8 w_kelvin = true /\ slice_ok w_kelvin (Inside 38 1) = true /\
+  format_parse_error_lowercased_copy w_kelvin (Inside 38 1) = Panic /\
+  format_parse_error w_kelvin (Inside 38 1) <> Panic.
+Proof. vm_compute. repeat split; discriminate. Qed.
+Print Assumptions C17_lowercased_copy_refuted.
+
 (* ---- non-vacuity ---- *)
 Example C17_example_select :
   let s := mkState [(1, 2, 3, 0); (1, 2, 4, 9)] [9; 8] [(1, 5)] false [1; 2; 3; 4] [] [] [] [] in
